@@ -539,13 +539,29 @@ fn main() {
                         fl.visit_block(&found.block);
                         match fl.hit {
                             Some((ex, s, e)) => {
-                                let sigtxt = format!("fn {} {{}}", l.sig.trim());
+                                // the documented form `name(args) -> (r: T)` is Verus syntax: turn the named return into plain Rust for syn, keep the name
+                                let mut sig_src = l.sig.trim().to_string();
+                                let mut lifted_ret: Option<String> = None;
+                                if let Some(ar) = sig_src.rfind("->") {
+                                    let tail = sig_src[ar + 2..].trim().to_string();
+                                    if tail.starts_with('(') && tail.ends_with(')') {
+                                        let inner = &tail[1..tail.len() - 1];
+                                        if let Some((nm, ty)) = inner.split_once(':') {
+                                            if !nm.trim().is_empty() && nm.trim().chars().all(|c| c.is_alphanumeric() || c == '_') && !ty.trim_start().starts_with(':') {
+                                                lifted_ret = Some(nm.trim().to_string());
+                                                sig_src = format!("{} -> {}", &sig_src[..ar], ty.trim());
+                                            }
+                                        }
+                                    }
+                                }
+                                let sigtxt = format!("fn {} {{}}", sig_src);
                                 match parse_str::<ItemFn>(&sigtxt) {
                                     Ok(f) => {
                                         let blk: Block = parse_quote!({ #ex });
                                         let ff = FoundFn { attrs: vec![], sig: f.sig.clone(), block: blk, impl_generics: None, self_ty: None, trait_: None, start: s, end: e };
                                         let mut fs = l.f.clone();
                                         fs.emit_name = Some(f.sig.ident.to_string());
+                                        if let Some(rn) = &lifted_ret { fs.ret_name = rn.clone(); }
                                         let disp = format!("{}#let {}", l.path, l.binder);
                                         let mut r = render_fn(&mut ctx, &unit, &fs, &ff, false, &disp);
                                         r.meta["rules"]["R-EXPR"] = json!(1);
